@@ -35,3 +35,19 @@ Definition model_contents (fs : list fcase) : res (list (str * N * N * str)) :=
 Definition check_contents (fs : list fcase) (obs exp : list (str * N * N * str)) : N :=
   let agree := match model_contents fs with Ok m => mset_eqb content_eqb m obs | _ => false end in
   verdict agree (mset_eqb content_eqb exp obs) false.
+
+(* C03 in full: listed blocks, their contents (echoed verbatim by a check-lua
+   script with check-lua-pattern="[\s\S]*") and the comment spans the grammar
+   produced, all against what the generator wrote *)
+Definition restrict_contents (keys : list (str * N * N * str)) (all : list (str * N * N * str)) : list (str * N * N * str) :=
+  filter (fun a => existsb (fun k => let '(f1, l1, c1, _) := a in let '(f2, l2, c2, _) := k in
+                                     str_eqb f1 f2 && (l1 =? l2) && (c1 =? c2)) keys) all.
+
+Definition check_blocks (fs : list fcase) (o : lobs) (exp : option (list (str * lblock)))
+                        (obs_contents exp_contents : list (str * N * N * str)) (spans_ok : bool) : N :=
+  let agree_c := match model_contents fs with
+                 | Ok m => mset_eqb content_eqb (restrict_contents obs_contents m) obs_contents
+                 | _ => match obs_contents with [] => true | _ => false end
+                 end in
+  verdict (list_agrees (model_scan_list fs) o && agree_c)
+          (spec_list exp o && mset_eqb content_eqb exp_contents obs_contents && spans_ok) false.
